@@ -42,6 +42,10 @@ TraceNext ==
              { r \in ToSet(e.refs) : r \notin mem /\ r \notin absent })
      /\ Need(e.reconf_exit = 0, "UnpackedArchiveConfigures", e.reconf_exit)
      /\ Need(e.reconf_equal, "UnpackedArchiveConfiguresToSameBuild", e.reconf_exit)
+     \* files added after configuration (extra_dist directory, find_files match, extra= file) and the
+     \* dist target run again through the build tool
+     /\ Need(e.later_exit = 0, "DistAfterTreeChangeSucceeds", e.later_exit)
+     /\ Need(e.later_missing = <<>>, "DistAfterTreeChangeContainsTheNewFiles", e.later_missing)
   /\ l' = l + 1 /\ UNCHANGED t
 TraceSpec == TraceInit /\ [][TraceNext]_tvars
 =============================================================================
